@@ -819,9 +819,9 @@ func main() {
 	defer os.RemoveAll(tmpdir)
 	rng := lib.NewRng(args.Seed)
 	cutRng = lib.NewRng(args.Seed ^ 0x5eed)
-	nData, nJSON, nQS, litLen, nLit, nHist, nScr, nPty := 2000, 900, 1500, 4, 3000, 400, 500, 400
+	nData, nJSON, nQS, litLen, nLit, nHist, nScr, nPty, nSlit := 2000, 900, 1500, 4, 3000, 400, 500, 400, 600
 	if args.Tier == "thorough" {
-		nData, nJSON, nQS, litLen, nLit, nHist, nScr, nPty = 40000, 15000, 30000, 5, 60000, 8000, 10000, 8000
+		nData, nJSON, nQS, litLen, nLit, nHist, nScr, nPty, nSlit = 40000, 15000, 30000, 5, 60000, 8000, 10000, 8000, 20000
 	}
 	if args.Replay != "" {
 		replay(args.Replay)
@@ -832,6 +832,7 @@ func main() {
 		histStream(rng.Fork(), nHist)
 		scriptStream(rng.Fork(), nScr)
 		prettyStream(rng.Fork(), nPty)
+		strlitStream(rng.Fork(), nSlit)
 	}
 	out.Extra["harness_wall_s"] = time.Since(t0).Seconds()
 	out.Close(args.Stats)
